@@ -700,6 +700,11 @@ func ReachPhiAware(start ssa.Instruction, target, avoid Pred) ssa.Instruction {
 	return reachPhiAware(start.Parent(), sb, idx, target, avoid)
 }
 
+// ReachPhiAwareFromBlock is ReachPhiAware from the start of block b.
+func ReachPhiAwareFromBlock(b *ssa.BasicBlock, target, avoid Pred) ssa.Instruction {
+	return reachPhiAware(b.Parent(), b, 0, target, avoid)
+}
+
 // ReachPhiAwareFromEntry is ReachPhiAware from the entry of fn.
 func ReachPhiAwareFromEntry(fn *ssa.Function, target, avoid Pred) ssa.Instruction {
 	if len(fn.Blocks) == 0 {
